@@ -71,7 +71,22 @@ def _compile_one(src, flavour):
         if cc.returncode != 0:
             return src, None, cc.stderr.decode(errors="replace")
         os.replace(tmp, obj)
+    else:
+        try:
+            os.utime(obj, None)
+        except OSError:
+            pass
     return src, obj, ""
+
+
+def _prune(d, keep):
+    """keep the `keep` most recently used files of a cache directory (under the build lock)"""
+    try:
+        fs = sorted((os.path.join(d, f) for f in os.listdir(d)), key=os.path.getmtime, reverse=True)
+        for f in fs[keep:]:
+            os.unlink(f)
+    except OSError:
+        pass
 
 
 def build(harness_sources, out_name, flavour="san", quiet=False):
@@ -100,6 +115,9 @@ def build(harness_sources, out_name, flavour="san", quiet=False):
                 sys.stderr.write(ld.stderr.decode(errors="replace")[-4000:])
                 raise SystemExit(2)
             os.replace(tmp, exe)
+        os.utime(exe, None)
+        _prune(BIN, keep=8)
+        _prune(OBJ, keep=1500)
         if not quiet:
             sys.stderr.write("build_repo: %s (%d units)\n" % (exe, len(objs)))
         return exe
